@@ -271,6 +271,21 @@ def gen(rng, tier):
         x0 = [rng.uniform(-radius, radius) for _ in range(n)]
         ops.append(make_op(method, interp, gen_maxit(rng), gen_c12(rng), gen_params(rng), gen_t0(rng), fspec, x0,
                            gen_direction(rng, n)))
+    # the preamble's shrinking loop followed by a SUCCESS (seeded change C07-c1): the first trial point overflows (exp-type objective,
+    # direction overshooting the minimiser: d = -k x0), a shrunk one is valid and gives a large decrease, so the search then
+    # accepts quickly - the returned step must be the step of the returned state (from a forked stream, appended)
+    ro = rng.fork()
+    for _ in range(count // 10):
+        fid = ro.choice(["exponential", "exponential", "geometric-optimization", "logistic+ridge[1]", "cauchy", "qing", "powell"])
+        dims = ro.choice([1, 2, 3, 4, 8])
+        n = actual_dims(fid, dims)
+        radius = 10 ** ro.uniform(0.3, 2.2)
+        x0 = [ro.uniform(-radius, radius) for _ in range(n)]
+        k = ro.choice([1.5, 2.0, 3.0, 6.0, 10.0, 10 ** ro.uniform(0, 2)])
+        direction = "explicit " + lst([-k * v for v in x0], f2h)
+        t0 = ro.choice([1.0, 1.0, 0.9, 3.0, 10 ** ro.uniform(-1, 2)])
+        ops.append(make_op(ro.choice(METHODS), ro.choice(INTERPS), gen_maxit(ro), gen_c12(ro), gen_params(ro), t0,
+                           f"fn {fid} {dims} {ro.choice([1, 10, 100])}", x0, direction))
     # user-supplied 1-D line functions (from a forked stream, appended: the ops above are the same as before this family existed)
     rh = rng.fork()
     for _ in range(count // 12):
